@@ -703,8 +703,689 @@ Proof.
         apply in_or_app. destruct Hy; [left|right; right]; assumption.
       * intros y Hy. apply (bs_rl_r _ _ _ HS). rewrite Erepl. fold R. rewrite Hab. apply in_app_or in Hy.
         apply in_or_app. destruct Hy; [left|right; right]; assumption.
-    + apply CS_intro; [apply HC1|apply HC1|]. intros k. cbn [lb lt bips].
-      fold b'. rewrite <- (cntr_perm k _ _ P2).
+    + apply CS_intro; [apply HC1|apply HC1|]. intros k. cbn [lb lt].
+      replace (bips b') with (bips (lb L1)) by reflexivity. rewrite <- (cntr_perm k _ _ P2).
       destruct HC1 as (_ & _ & Hg). destruct (Hg k) as [G1 G2]. rewrite G1, G2.
       rewrite (cntr_perm k _ _ P1). cbn [cntr]. unfold n_ip. lia.
+Qed.
+
+(* ================= revalidation.handleResponse ================= *)
+
+Lemma handle_response_l_spec s i rest L n resp nr rnd :
+  LInv s i rest L ->
+  exists L', handle_response_l L n resp nr rnd = Some L' /\ LInv s i rest L'.
+Proof.
+  intros HI. unfold handle_response_l. destruct resp; cbn [negb].
+  - (* the node responded *)
+    set (L1 := set_entries L _).
+    assert (HI1 : LInv s i rest L1).
+    { apply LInv_touch; [exact HI|reflexivity|intros x Hx; exact Hx]. }
+    destruct nr as [nr|].
+    + destruct (bump_in_bucket L1 nr false) as [[L2 f] ch] eqn:Eb.
+      destruct (bump_spec _ _ _ _ _ _ _ _ _ HI1 Eb) as (HI2 & _).
+      destruct ch; eexists; (split; [reflexivity|]); [exact HI2|].
+      apply LInv_touch; [exact HI2|reflexivity|intros x _; cbn; lia].
+    + eexists. split; [reflexivity|]. apply LInv_touch; [exact HI1|reflexivity|intros x _; cbn; lia].
+  - (* no response *)
+    set (L1 := set_entries L _).
+    assert (HI1 : LInv s i rest L1).
+    { apply LInv_touch; [exact HI|reflexivity|intros x Hx; exact Hx]. }
+    destruct (n_checks n / 3 <=? 0).
+    + destruct (delete_in_bucket_spec s i rest L1 (n_id n) rnd HI1) as (L2 & o & -> & HI2).
+      eexists. split; [reflexivity|exact HI2].
+    + eexists. split; [reflexivity|]. apply LInv_touch; [exact HI1|reflexivity|intros x _; cbn; lia].
+Qed.
+
+(* ================= the whole table ================= *)
+
+Fixpoint total (k : N) (bs : list bucket) : N :=
+  match bs with [] => 0 | b :: r => cntr k (trecs b) + total k r end.
+
+Definition BInv (self_id : N) (i : nat) (b : bucket) : Prop :=
+  BS self_id i b /\ ns_ok 2 (bips b) /\ forall k, ns_get k (bips b) = cntr k (trecs b).
+
+Record TableInv (t : table) : Prop := {
+  ti_len : length (buckets t) = 17%nat;
+  ti_self : self t < 2 ^ 256;
+  ti_bs : forall i b, nth_error (buckets t) i = Some b -> BInv (self t) i b;
+  ti_ok : ns_ok 10 (tips t);
+  ti_exact : forall k, ns_get k (tips t) = total k (buckets t)
+}.
+
+Lemma set_nth_length {A} i (x : A) l : length (set_nth i x l) = length l.
+Proof.
+  revert i. induction l as [|y l IH]; intros i; [reflexivity|]. destruct i; cbn [set_nth length]; auto.
+Qed.
+
+Lemma nth_error_set_nth {A} i (x : A) l j y :
+  nth_error l i = Some y ->
+  nth_error (set_nth i x l) j = if Nat.eqb j i then Some x else nth_error l j.
+Proof.
+  revert i j. induction l as [|z l IH]; intros i j H; [destruct i; discriminate|].
+  destruct i as [|i]; destruct j as [|j]; cbn [set_nth nth_error Nat.eqb]; auto.
+Qed.
+
+Lemma total_split bs i b :
+  nth_error bs i = Some b ->
+  exists rest : N -> N, (forall k, total k bs = rest k + cntr k (trecs b)) /\
+    forall b' k, total k (set_nth i b' bs) = rest k + cntr k (trecs b').
+Proof.
+  revert i. induction bs as [|x bs IH]; intros i H; [destruct i; discriminate|].
+  destruct i as [|i]; cbn [nth_error] in H.
+  - injection H as ->. exists (fun k => total k bs). split; intros; cbn [set_nth total]; lia.
+  - destruct (IH i H) as (rest & H1 & H2).
+    exists (fun k => cntr k (trecs x) + rest k). split; intros; cbn [set_nth total].
+    + rewrite H1. lia.
+    + rewrite H2. lia.
+Qed.
+
+Lemma lxor_lt_pow2 a b n : a < 2 ^ n -> b < 2 ^ n -> N.lxor a b < 2 ^ n.
+Proof.
+  intros Ha Hb. destruct (N.eq_dec (N.lxor a b) 0) as [->|Hx]; [apply N.neq_0_lt_0; apply N.pow_nonzero; lia|].
+  assert (Hn : 0 < n).
+  { destruct (N.eq_dec n 0) as [->|]; [|lia]. change (2 ^ 0) with 1 in *.
+    assert (a = 0) by lia. assert (b = 0) by lia. subst. cbn in Hx. congruence. }
+  apply N.log2_lt_pow2; [lia|].
+  eapply N.le_lt_trans; [apply N.log2_lxor|].
+  apply N.max_lub_lt.
+  - destruct (N.eq_dec a 0) as [->|Ha0]; [cbn; exact Hn|apply N.log2_lt_pow2; lia].
+  - destruct (N.eq_dec b 0) as [->|Hb0]; [cbn; exact Hn|apply N.log2_lt_pow2; lia].
+Qed.
+
+Lemma bidx_lt s id : s < 2 ^ 256 -> id < 2 ^ 256 -> (bidx s id < 17)%nat.
+Proof.
+  intros Hs Hid. unfold bidx, bucket_index, logdist.
+  pose proof (lxor_lt_pow2 _ _ _ Hs Hid) as Hx.
+  assert (Hsz : N.size (N.lxor s id) <= 256).
+  { destruct (N.eq_dec (N.lxor s id) 0) as [->|Hn]; [cbn; lia|].
+    rewrite N.size_log2 by exact Hn. apply N.log2_lt_pow2 in Hx; lia. }
+  destruct (N.size (N.lxor s id) <=? 239) eqn:E; lia.
+Qed.
+
+Lemma with_bucket_spec {R} t id (f : lst -> option (lst * R)) :
+  TableInv t -> (bidx (self t) id < 17)%nat ->
+  (forall rest L, LInv (self t) (bidx (self t) id) rest L ->
+     exists L' r, f L = Some (L', r) /\ LInv (self t) (bidx (self t) id) rest L') ->
+  exists t' r, with_bucket t id f = Some (t', r) /\ TableInv t' /\ self t' = self t.
+Proof.
+  intros HT Hlt Hf. unfold with_bucket, bucket_of. fold (bidx (self t) id).
+  set (i := bidx (self t) id) in *.
+  destruct (nth_error (buckets t) i) as [b|] eqn:En.
+  2:{ apply nth_error_None in En. rewrite (ti_len _ HT) in En. lia. }
+  destruct (ti_bs _ HT _ _ En) as (HS & Hok & Hex).
+  destruct (total_split _ _ _ En) as (rest & H1 & H2).
+  destruct (Hf rest (mkL b (tips t))) as (L' & r & -> & HS' & HC').
+  { split; [exact HS|]. apply CS_intro; [exact Hok|exact (ti_ok _ HT)|].
+    intros k. cbn [lb lt]. split; [apply Hex|]. rewrite (ti_exact _ HT), H1. reflexivity. }
+  eexists _, _. split; [reflexivity|]. split; [|reflexivity].
+  destruct HC' as (Hb' & Ht' & Hg').
+  constructor; cbn [self buckets tips init_done].
+  - rewrite set_nth_length. apply (ti_len _ HT).
+  - apply (ti_self _ HT).
+  - intros j bj Hj. rewrite (nth_error_set_nth _ _ _ _ _ En) in Hj.
+    destruct (Nat.eqb j i) eqn:Eji.
+    + apply Nat.eqb_eq in Eji. subst j. injection Hj as <-.
+      split; [exact HS'|]. split; [exact Hb'|]. intros k. apply Hg'.
+    + apply (ti_bs _ HT). exact Hj.
+  - exact Ht'.
+  - intros k. rewrite H2. apply Hg'.
+Qed.
+
+Lemma handle_add_node_inv t r tok inb fl :
+  TableInv t -> r_id r < 2 ^ 256 ->
+  exists t' ok, handle_add_node t r tok inb fl = Some (t', ok) /\ TableInv t' /\ self t' = self t.
+Proof.
+  intros HT Hid. unfold handle_add_node. apply with_bucket_spec; [exact HT|apply bidx_lt; [apply (ti_self _ HT)|exact Hid]|].
+  intros rest L HI.
+  destruct (handle_add_node_l (self t) (init_done t) L r tok inb fl) as [L' ok] eqn:E.
+  exists L', ok. split; [reflexivity|]. eapply handle_add_node_l_spec; eauto.
+Qed.
+
+Lemma delete_node_op_inv t id rnd :
+  TableInv t -> id < 2 ^ 256 ->
+  exists t' o, delete_node_op t id rnd = Some (t', o) /\ TableInv t' /\ self t' = self t.
+Proof.
+  intros HT Hid. unfold delete_node_op. apply with_bucket_spec; [exact HT|apply bidx_lt; [apply (ti_self _ HT)|exact Hid]|].
+  intros rest L HI. apply delete_in_bucket_spec. exact HI.
+Qed.
+
+Lemma find_first_in {A} (p : A -> bool) l n : find_first p l = Some n -> In n l.
+Proof.
+  intros H. destruct (find_first_split _ _ _ H) as (l1 & l2 & -> & _).
+  apply in_or_app. right. left. reflexivity.
+Qed.
+
+Lemma find_tok_bidx t tok n :
+  TableInv t -> find_tok t tok = Some n -> (bidx (self t) (n_id n) < 17)%nat.
+Proof.
+  intros HT H. unfold find_tok in H. apply find_first_in in H. apply in_flat_map in H.
+  destruct H as (b & Hb & Hn). apply In_nth_error in Hb. destruct Hb as [i Hi].
+  destruct (ti_bs _ HT _ _ Hi) as (HS & _).
+  assert (Hin : In (n_rec n) (trecs b)).
+  { unfold trecs. rewrite <- map_app. apply in_map. exact Hn. }
+  destruct (proj1 (bs_bag _ _ _ HS) _ Hin) as (Hidx & _). unfold n_id. rewrite Hidx.
+  assert (i < length (buckets t))%nat by (apply nth_error_Some; congruence).
+  rewrite (ti_len _ HT) in *. assumption.
+Qed.
+
+Lemma handle_response_inv t tok resp nr rnd :
+  TableInv t ->
+  exists t', handle_response t tok resp nr rnd = Some t' /\ TableInv t' /\ self t' = self t.
+Proof.
+  intros HT. unfold handle_response. destruct (find_tok t tok) as [n|] eqn:Ef; [|eauto].
+  destruct (n_rl n =? 0); [eauto|].
+  destruct (with_bucket_spec t (n_id n)
+              (fun L => match handle_response_l L n resp nr rnd with
+                        | Some L' => Some (L', tt) | None => None end) HT)
+    as (t' & r & -> & HT' & Hs).
+  - eapply find_tok_bidx; eauto.
+  - intros rest L HI.
+    destruct (handle_response_l_spec _ _ _ _ n resp nr rnd HI) as (L' & -> & HI').
+    eauto.
+  - eauto.
+Qed.
+
+Lemma add_found_inv found : forall t,
+  TableInv t -> Forall (fun x => r_id (fst x) < 2 ^ 256) found ->
+  exists t', add_found t found = Some t' /\ TableInv t' /\ self t' = self t.
+Proof.
+  induction found as [|[r tok] found IH]; intros t HT Hf; [cbn; eauto|].
+  inversion Hf as [|? ? Hr Hrest]; subst. cbn [fst] in Hr. cbn [add_found].
+  destruct (handle_add_node_inv t r tok false false HT Hr) as (t1 & ok & -> & HT1 & Hs1).
+  destruct (IH t1 HT1 Hrest) as (t2 & -> & HT2 & Hs2). exists t2. split; [reflexivity|]. split; [exact HT2|congruence].
+Qed.
+
+Lemma handle_track_request_inv t id succ prior found rnd :
+  TableInv t -> id < 2 ^ 256 -> Forall (fun x => r_id (fst x) < 2 ^ 256) found ->
+  exists t', handle_track_request t id succ prior found rnd = Some t' /\ TableInv t' /\ self t' = self t.
+Proof.
+  intros HT Hid Hf. unfold handle_track_request.
+  match goal with |- context [with_bucket t id ?f] =>
+    destruct (with_bucket_spec t id f HT) as (t1 & r & -> & HT1 & Hs1) end.
+  - apply bidx_lt; [apply (ti_self _ HT)|exact Hid].
+  - intros rest L HI. destruct (_ && _); [apply delete_in_bucket_spec; exact HI|eauto].
+  - destruct (add_found_inv found t1 HT1 Hf) as (t2 & -> & HT2 & Hs2). exists t2. split; [reflexivity|]. split; [exact HT2|congruence].
+Qed.
+
+(* guard on operations: node ids are 256-bit values (the Go type enode.ID) *)
+Definition wf_op (o : op) : Prop :=
+  match o with
+  | OInitDone => True
+  | OAdd r _ _ _ => r_id r < 2 ^ 256
+  | ODelete id _ => id < 2 ^ 256
+  | OReval _ _ _ _ => True
+  | OTrack id _ _ found _ => id < 2 ^ 256 /\ Forall (fun x => r_id (fst x) < 2 ^ 256) found
+  end.
+
+(* no operation panics, and every operation preserves the invariant *)
+Lemma step_inv t o :
+  TableInv t -> wf_op o -> exists t', step t o = Some t' /\ TableInv t' /\ self t' = self t.
+Proof.
+  intros HT Hw. destruct o as [|r tok inb fl|id rnd|tok resp nr rnd|id succ prior found rnd]; cbn [step wf_op] in *.
+  - eexists. split; [reflexivity|]. split; [|reflexivity]. destruct HT. constructor; auto.
+  - destruct (handle_add_node_inv t r tok inb fl HT Hw) as (t' & ok & -> & H). exists t'. split; [reflexivity|exact H].
+  - destruct (delete_node_op_inv t id rnd HT Hw) as (t' & o & -> & H). exists t'. split; [reflexivity|exact H].
+  - apply handle_response_inv. exact HT.
+  - destruct Hw. apply handle_track_request_inv; auto.
+Qed.
+
+Lemma new_table_inv s : s < 2 ^ 256 -> TableInv (new_table s).
+Proof.
+  intros Hs. constructor; cbn [new_table self buckets tips].
+  - reflexivity.
+  - exact Hs.
+  - intros i b H. assert (b = empty_bucket).
+    { apply nth_error_In in H. apply repeat_spec in H. exact H. }
+    subst b. split; [|split; [apply ns_ok_nil|reflexivity]].
+    constructor; cbn; try lia; auto; try (intros ? []).
+    split; [intros ? []|constructor].
+  - apply ns_ok_nil.
+  - intros k. reflexivity.
+Qed.
+
+Lemma run_inv ops : forall t,
+  TableInv t -> Forall wf_op ops -> exists t', run t ops = Some t' /\ TableInv t' /\ self t' = self t.
+Proof.
+  induction ops as [|o ops IH]; intros t HT Hw; [cbn; eauto|].
+  inversion Hw; subst. cbn [run].
+  destruct (step_inv t o HT) as (t1 & -> & HT1 & Hs1); [assumption|].
+  destruct (IH t1 HT1) as (t2 & -> & HT2 & Hs2); [assumption|]. exists t2. split; [reflexivity|]. split; [exact HT2|congruence].
+Qed.
+
+(* ================= findnodeByID ================= *)
+From Coq Require Import Sorted.
+
+Section Closest.
+Variable target : N.
+Definition dist (r : rec) : N := N.lxor target (r_id r).
+Definition closer (a b : rec) : Prop := dist a < dist b.
+
+Lemma search_split (n : rec) l :
+  StronglySorted closer l -> (forall y, In y l -> dist y <> dist n) ->
+  exists l1 l2, l = l1 ++ l2 /\
+    length l1 = search_first (fun e => dist_gt target (r_id e) (r_id n)) l /\
+    (forall y, In y l1 -> dist y < dist n) /\ (forall y, In y l2 -> dist n < dist y).
+Proof.
+  induction l as [|x l IH]; intros Hs Hd.
+  - exists [], []. cbn. repeat split; auto; intros ? [].
+  - cbn [search_first]. unfold dist_gt at 1. fold (dist n) (dist x).
+    inversion Hs as [|? ? Hs' Hx]; subst.
+    destruct (dist n <? dist x) eqn:E.
+    + exists [], (x :: l). cbn [app length]. repeat split; auto; [intros ? []|].
+      intros y [<-|Hy]; [lia|]. rewrite Forall_forall in Hx. specialize (Hx y Hy). unfold closer in Hx. lia.
+    + destruct IH as (l1 & l2 & -> & Hlen & H1 & H2); [exact Hs'|intros y Hy; apply Hd; right; exact Hy|].
+      exists (x :: l1), l2. cbn [app length]. repeat split; auto.
+      intros y [<-|Hy]; [|apply H1; exact Hy].
+      assert (dist x <> dist n) by (apply Hd; left; reflexivity). lia.
+Qed.
+
+Lemma insert_at_app {A} (l1 l2 : list A) x : insert_at (length l1) x (l1 ++ l2) = l1 ++ x :: l2.
+Proof. induction l1 as [|y l1 IH]; cbn [length insert_at app]; [destruct l2; reflexivity|rewrite IH; reflexivity]. Qed.
+
+Lemma sorted_mid l1 l2 (n : rec) :
+  StronglySorted closer (l1 ++ l2) ->
+  (forall y, In y l1 -> dist y < dist n) -> (forall y, In y l2 -> dist n < dist y) ->
+  StronglySorted closer (l1 ++ n :: l2).
+Proof.
+  induction l1 as [|x l1 IH]; cbn [app]; intros Hs H1 H2.
+  - constructor; [exact Hs|]. apply Forall_forall. intros y Hy. apply H2. exact Hy.
+  - inversion Hs as [|? ? Hs' Hx]; subst. constructor.
+    + apply IH; auto. intros y Hy. apply H1. right. exact Hy.
+    + rewrite Forall_forall in *. intros y Hy. apply in_app_or in Hy.
+      destruct Hy as [Hy|[<-|Hy]]; [apply Hx; apply in_or_app; left; exact Hy
+                                   |apply H1; left; reflexivity|apply Hx; apply in_or_app; right; exact Hy].
+Qed.
+
+Lemma sorted_app_l l1 l2 : StronglySorted closer (l1 ++ l2) -> StronglySorted closer l1.
+Proof.
+  induction l1 as [|x l1 IH]; cbn [app]; intros Hs; [constructor|].
+  inversion Hs as [|? ? Hs' Hx]; subst. constructor; [apply IH; exact Hs'|].
+  rewrite Forall_forall in *. intros y Hy. apply Hx. apply in_or_app. left. exact Hy.
+Qed.
+
+Lemma sorted_last_max l z : StronglySorted closer (l ++ [z]) -> forall y, In y l -> dist y < dist z.
+Proof.
+  induction l as [|x l IH]; cbn [app]; intros Hs y Hy; [destruct Hy|].
+  inversion Hs as [|? ? Hs' Hx]; subst. destruct Hy as [<-|Hy]; [|apply IH; auto].
+  rewrite Forall_forall in Hx. apply Hx. apply in_or_app. right. left. reflexivity.
+Qed.
+
+(* what has been pushed so far (S) and what is kept (R) *)
+Record Top (m : nat) (S R : list rec) : Prop := {
+  top_sorted : StronglySorted closer R;
+  top_incl : incl R S;
+  top_len : (length R <= m)%nat;
+  top_all : (length R < m)%nat -> incl S R;
+  top_far : forall x y, In x S -> ~ In x R -> In y R -> dist y < dist x
+}.
+
+Lemma top_nil m : Top m [] [].
+Proof.
+  constructor.
+  - constructor.
+  - intros ? [].
+  - cbn. lia.
+  - intros _ ? [].
+  - intros ? ? [].
+Qed.
+
+Lemma top_push m S R n :
+  Top m S R -> (forall y, In y S -> dist y <> dist n) ->
+  Top m (n :: S) (nbd_push target R n m).
+Proof.
+  intros [Hs Hi Hl Ha Hf] Hd. unfold nbd_push.
+  destruct (search_split n R Hs) as (l1 & l2 & HR & Hix & H1 & H2).
+  { intros y Hy. apply Hd. apply Hi. exact Hy. }
+  rewrite <- Hix. subst R. rewrite app_length in *.
+  destruct (Nat.ltb (length l1) (length l1 + length l2)) eqn:Eix.
+  - apply Nat.ltb_lt in Eix.
+    destruct (Nat.ltb (length l1 + length l2) m) eqn:Em.
+    + (* room: insert *)
+      apply Nat.ltb_lt in Em. rewrite insert_at_app. specialize (Ha Em). constructor.
+      * apply sorted_mid; auto.
+      * intros y Hy. apply in_app_or in Hy. destruct Hy as [Hy|[<-|Hy]]; [right; apply Hi; apply in_or_app; left; exact Hy
+          |left; reflexivity|right; apply Hi; apply in_or_app; right; exact Hy].
+      * rewrite app_length. cbn [length]. lia.
+      * intros _ y [<-|Hy]; [apply in_or_app; right; left; reflexivity|].
+        apply Ha in Hy. apply in_app_or in Hy. apply in_or_app. destruct Hy; [left|right; right]; assumption.
+      * intros x y [<-|Hx] Hnx Hy; [exfalso; apply Hnx; apply in_or_app; right; left; reflexivity|].
+        exfalso. apply Hnx. apply Ha in Hx. apply in_app_or in Hx. apply in_or_app.
+        destruct Hx; [left|right; right]; assumption.
+    + (* full: insert and drop the last *)
+      apply Nat.ltb_ge in Em.
+      destruct (last_opt_some l2) as [z Hz]; [intros ->; cbn in Eix; lia|].
+      pose proof (last_opt_split _ _ Hz) as Hsplit. set (l2' := removelast l2) in *.
+      rewrite removelast_app by (intros ->; cbn in Eix; lia). fold l2'. rewrite insert_at_app.
+      assert (Hs2 : StronglySorted closer (l1 ++ l2')).
+      { apply (sorted_app_l _ [z]). rewrite <- app_assoc, <- Hsplit. exact Hs. }
+      assert (Hzmax : forall y, In y (l1 ++ l2') -> dist y < dist z).
+      { apply sorted_last_max. rewrite <- app_assoc, <- Hsplit. exact Hs. }
+      assert (Hnz : dist n < dist z) by (apply H2; rewrite Hsplit; apply in_or_app; right; left; reflexivity).
+      assert (Hlen2 : length l2 = Datatypes.S (length l2')) by (rewrite Hsplit, app_length; cbn; lia).
+      constructor.
+      * apply sorted_mid; auto. intros y Hy. apply H2. rewrite Hsplit. apply in_or_app. left. exact Hy.
+      * intros y Hy. apply in_app_or in Hy. destruct Hy as [Hy|[<-|Hy]]; [right; apply Hi; apply in_or_app; left; exact Hy
+          |left; reflexivity|right; apply Hi; apply in_or_app; right; rewrite Hsplit; apply in_or_app; left; exact Hy].
+      * rewrite app_length. cbn [length]. lia.
+      * rewrite app_length. cbn [length]. lia.
+      * intros x y Hx Hnx Hy.
+        assert (Hyz : dist y < dist z \/ False).
+        { left. apply in_app_or in Hy. destruct Hy as [Hy|[<-|Hy]]; [apply Hzmax; apply in_or_app; left; exact Hy|exact Hnz
+            |apply Hzmax; apply in_or_app; right; exact Hy]. }
+        destruct Hyz as [Hyz|[]].
+        destruct Hx as [<-|Hx]; [exfalso; apply Hnx; apply in_or_app; right; left; reflexivity|].
+        (* x was pushed before: it is z, or it had been left out already *)
+        destruct (N.eq_dec (dist x) (dist z)) as [Exz|Exz]; [lia|].
+        assert (Hxo : ~ In x (l1 ++ l2)).
+        { intros Hin. apply in_app_or in Hin. destruct Hin as [Hin|Hin]; [apply Hnx; apply in_or_app; left; exact Hin|].
+          rewrite Hsplit in Hin. apply in_app_or in Hin. destruct Hin as [Hin|[<-|[]]]; [|congruence].
+          apply Hnx. apply in_or_app. right. right. exact Hin. }
+        specialize (Hf x z Hx Hxo). assert (dist z < dist x); [|lia].
+        apply Hf. apply in_or_app. right. rewrite Hsplit. apply in_or_app. right. left. reflexivity.
+  - (* n is farther than everything kept *)
+    apply Nat.ltb_ge in Eix. assert (length l2 = O) by lia. destruct l2; [|cbn in *; lia].
+    rewrite app_nil_r in *. cbn [length] in *. rewrite Nat.add_0_r in *.
+    destruct (Nat.ltb (length l1) m) eqn:Em.
+    + apply Nat.ltb_lt in Em. specialize (Ha Em). constructor.
+      * rewrite <- (app_nil_r (l1 ++ [n])), <- app_assoc. apply sorted_mid; cbn [app]; rewrite ?app_nil_r; auto.
+      * intros y Hy. apply in_app_or in Hy. destruct Hy as [Hy|[<-|[]]]; [right; apply Hi; exact Hy|left; reflexivity].
+      * rewrite app_length. cbn [length]. lia.
+      * intros _ y [<-|Hy]; apply in_or_app; [right; left; reflexivity|left; apply Ha; exact Hy].
+      * intros x y [<-|Hx] Hnx Hy; exfalso; apply Hnx; apply in_or_app; [right; left; reflexivity|left; apply Ha; exact Hx].
+    + apply Nat.ltb_ge in Em. constructor; auto.
+      * intros y Hy. right. apply Hi. exact Hy.
+      * intros Hlt. lia.
+      * intros x y [<-|Hx] Hnx Hy; [apply H1; exact Hy|apply Hf; auto].
+Qed.
+
+Lemma top_fold m cands : forall S R,
+  Top m S R -> NoDup (map dist (rev S ++ cands)) ->
+  exists S', Permutation S' (S ++ cands) /\
+             Top m S' (fold_left (fun acc n => nbd_push target acc n m) cands R).
+Proof.
+  induction cands as [|n cands IH]; intros S R HT Hnd.
+  - exists S. rewrite app_nil_r. split; [reflexivity|exact HT].
+  - cbn [fold_left].
+    assert (Hd : forall y, In y S -> dist y <> dist n).
+    { intros y Hy E. rewrite map_app in Hnd. cbn [map] in Hnd. apply NoDup_remove_2 in Hnd.
+      apply Hnd. apply in_or_app. left. rewrite <- E. apply in_map. apply in_rev in Hy. exact Hy. }
+    destruct (IH (n :: S) _ (top_push _ _ _ _ HT Hd)) as (S' & HP & HT').
+    { cbn [rev]. rewrite <- app_assoc. exact Hnd. }
+    exists S'. split; [|exact HT']. rewrite HP. cbn [app]. apply Permutation_middle.
+Qed.
+End Closest.
+
+From Coq Require Import FinFun.
+
+Lemma nodup_app {A} (a b : list A) :
+  NoDup a -> NoDup b -> (forall x, In x a -> ~ In x b) -> NoDup (a ++ b).
+Proof.
+  induction a as [|x a IH]; intros Ha Hb Hd; [exact Hb|]. cbn [app].
+  inversion Ha as [|? ? Hx Ha']; subst. constructor.
+  - intros Hin. apply in_app_or in Hin. destruct Hin as [Hin|Hin]; [auto|]. apply (Hd x); [left; reflexivity|exact Hin].
+  - apply IH; auto. intros y Hy. apply Hd. right. exact Hy.
+Qed.
+
+Lemma nodup_app_l {A} (a b : list A) : NoDup (a ++ b) -> NoDup a.
+Proof.
+  induction a as [|x a IH]; cbn [app]; intros H; [constructor|].
+  inversion H as [|? ? Hx Ha]; subst. constructor; [|auto].
+  intros Hin. apply Hx. apply in_or_app. left. exact Hin.
+Qed.
+
+Lemma all_ids_nodup s bs : forall off,
+  (forall i b, nth_error bs i = Some b -> BInv s (off + i) b) ->
+  NoDup (map n_id (flat_map entries bs)).
+Proof.
+  induction bs as [|b bs IH]; intros off H; [constructor|].
+  cbn [flat_map]. rewrite map_app. apply nodup_app.
+  - destruct (H O b eq_refl) as (HS & _). destruct (bs_bag _ _ _ HS) as [_ Hnd].
+    unfold trecs in Hnd. rewrite map_app in Hnd. apply nodup_app_l in Hnd.
+    rewrite map_map in Hnd. exact Hnd.
+  - apply (IH (S off)). intros i b' Hi. rewrite Nat.add_succ_l, <- Nat.add_succ_r. apply H. exact Hi.
+  - intros id Hin1 Hin2. apply in_map_iff in Hin1. destruct Hin1 as (n1 & <- & Hn1).
+    apply in_map_iff in Hin2. destruct Hin2 as (n2 & Heq & Hn2).
+    apply in_flat_map in Hn2. destruct Hn2 as (b2 & Hb2 & Hn2). apply In_nth_error in Hb2. destruct Hb2 as [j Hj].
+    destruct (H O b eq_refl) as (HS1 & _). destruct (H (S j) b2 Hj) as (HS2 & _).
+    assert (I1 : In (n_rec n1) (trecs b)) by (unfold trecs; apply in_or_app; left; apply in_map; exact Hn1).
+    assert (I2 : In (n_rec n2) (trecs b2)) by (unfold trecs; apply in_or_app; left; apply in_map; exact Hn2).
+    destruct (proj1 (bs_bag _ _ _ HS1) _ I1) as (E1 & _).
+    destruct (proj1 (bs_bag _ _ _ HS2) _ I2) as (E2 & _).
+    unfold n_id in Heq. rewrite Heq in E2. lia.
+Qed.
+
+Lemma lxor_inj t : Injective (N.lxor t).
+Proof.
+  intros a b H. rewrite <- (N.lxor_0_l a), <- (N.lxor_nilpotent t), N.lxor_assoc, H,
+    <- N.lxor_assoc, N.lxor_nilpotent, N.lxor_0_l. reflexivity.
+Qed.
+
+Lemma nodup_map_filter {A B} (f : A -> B) p l : NoDup (map f l) -> NoDup (map f (filter p l)).
+Proof.
+  induction l as [|x l IH]; cbn [map filter]; intros H; [constructor|].
+  inversion H as [|? ? Hx Hl]; subst. destruct (p x); [|auto]. cbn [map]. constructor; [|auto].
+  intros Hin. apply Hx. apply in_map_iff in Hin. destruct Hin as (y & <- & Hy).
+  apply in_map. apply filter_In in Hy. apply Hy.
+Qed.
+
+Lemma sorted_nodup target l : StronglySorted (closer target) l -> NoDup l.
+Proof.
+  induction 1 as [|x l Hs IH Hx]; constructor; [|exact IH].
+  intros Hin. rewrite Forall_forall in Hx. specialize (Hx x Hin). unfold closer in Hx. lia.
+Qed.
+
+Record closest_spec (target : N) (nresults : nat) (cands R : list rec) : Prop := {
+  cs_sorted : StronglySorted (closer target) R;
+  cs_incl : incl R cands;
+  cs_len : length R = Nat.min nresults (length cands);
+  cs_far : forall x y, In x cands -> ~ In x R -> In y R -> dist target y < dist target x
+}.
+
+Lemma push_all_spec target m cands :
+  NoDup (map r_id cands) ->
+  closest_spec target m cands (fold_left (fun acc n => nbd_push target acc n m) cands []).
+Proof.
+  intros Hnd.
+  assert (Hdd : NoDup (map (dist target) cands)).
+  { replace (map (dist target) cands) with (map (N.lxor target) (map r_id cands))
+      by (rewrite map_map; reflexivity).
+    apply Injective_map_NoDup; [apply lxor_inj|exact Hnd]. }
+  destruct (top_fold target m cands [] [] (top_nil target m) Hdd) as (S' & HP & HT).
+  cbn [app] in HP. set (R := fold_left _ cands []) in *. destruct HT as [Hs Hi Hl Ha Hf].
+  assert (HndR : NoDup R) by (eapply sorted_nodup; exact Hs).
+  assert (HndC : NoDup cands) by (eapply NoDup_map_inv; exact Hnd).
+  assert (HndS : NoDup S') by (eapply Permutation_NoDup; [symmetry; exact HP|exact HndC]).
+  pose proof (Permutation_length HP) as HlenS.
+  constructor.
+  - exact Hs.
+  - intros y Hy. eapply Permutation_in; [exact HP|apply Hi; exact Hy].
+  - pose proof (NoDup_incl_length HndR Hi) as H1.
+    destruct (Nat.ltb (length R) m) eqn:E.
+    + apply Nat.ltb_lt in E. pose proof (NoDup_incl_length HndS (Ha E)). lia.
+    + apply Nat.ltb_ge in E. lia.
+  - intros x y Hx. apply Hf. eapply Permutation_in; [symmetry; exact HP|exact Hx].
+Qed.
+
+(* the candidates findnodeByID selects from *)
+Definition find_cands (t : table) (nresults : nat) (prefer_live : bool) : list tnode :=
+  let live := filter n_live (all_entries t) in
+  if prefer_live && negb (Nat.eqb nresults 0) && negb (Nat.eqb (length live) 0)
+  then live else all_entries t.
+
+Lemma fold_left_map {A B C} (g : A -> B) (f : C -> B -> C) l acc :
+  fold_left (fun a x => f a (g x)) l acc = fold_left f (map g l) acc.
+Proof. revert acc. induction l as [|x l IH]; intros acc; cbn [fold_left map]; auto. Qed.
+
+Lemma findnode_spec t target n pl :
+  TableInv t ->
+  closest_spec target n (map n_rec (find_cands t n pl)) (findnode t target n pl).
+Proof.
+  intros HT.
+  assert (Hall : NoDup (map r_id (map n_rec (all_entries t)))).
+  { rewrite map_map. apply (all_ids_nodup (self t) (buckets t) O). intros i b Hi. apply (ti_bs _ HT). exact Hi. }
+  assert (Hlive : NoDup (map r_id (map n_rec (filter n_live (all_entries t))))).
+  { rewrite map_map in *. apply nodup_map_filter. exact Hall. }
+  unfold findnode, find_cands.
+  rewrite !(fold_left_map n_rec (fun acc r => nbd_push target acc r n)).
+  pose proof (push_all_spec target n _ Hall) as Sall.
+  pose proof (push_all_spec target n _ Hlive) as Slive.
+  destruct pl; cbn [andb]; [|exact Sall].
+  set (Rl := fold_left _ (map n_rec (filter n_live (all_entries t))) []) in *.
+  pose proof (cs_len _ _ _ _ Slive) as Hlen. rewrite map_length in Hlen.
+  destruct Rl as [|r0 Rl'] eqn:ER.
+  - cbn [length] in Hlen.
+    replace (negb (Nat.eqb n 0) && negb (Nat.eqb (length (filter n_live (all_entries t))) 0)) with false; [exact Sall|].
+    destruct n; [reflexivity|]. destruct (length (filter n_live (all_entries t))); [reflexivity|cbn in Hlen; lia].
+  - cbn [length] in Hlen.
+    replace (negb (Nat.eqb n 0) && negb (Nat.eqb (length (filter n_live (all_entries t))) 0)) with true; [exact Slive|].
+    destruct n; [cbn in Hlen; lia|]. destruct (length (filter n_live (all_entries t))); [cbn in Hlen; lia|reflexivity].
+Qed.
+
+(* ================= the invariant in readable form, for every history ================= *)
+
+Definition tracked (b : bucket) : list tnode := entries b ++ repl b.
+Definition all_tracked (t : table) : list tnode := flat_map tracked (buckets t).
+
+(* number of tracked non-LAN nodes whose address falls into subnet k *)
+Definition subnet_count (k : N) (l : list tnode) : N :=
+  N.of_nat (length (filter (fun n => negb (addr_is_lan (n_ip n)) && (net_key (n_ip n) =? k)) l)).
+
+Lemma subnet_count_app k l1 l2 : subnet_count k (l1 ++ l2) = subnet_count k l1 + subnet_count k l2.
+Proof. unfold subnet_count. rewrite filter_app, app_length. lia. Qed.
+
+Lemma cntr_subnet_count k l : cntr k (map n_rec l) = subnet_count k l.
+Proof.
+  induction l as [|n l IH]; [reflexivity|]. cbn [map cntr]. rewrite IH.
+  change (n :: l) with ([n] ++ l). rewrite subnet_count_app. f_equal.
+  unfold subnet_count, ipw, n_ip. cbn [filter]. destruct (_ && _); reflexivity.
+Qed.
+
+Lemma trecs_tracked b : trecs b = map n_rec (tracked b).
+Proof. unfold trecs, tracked. rewrite map_app. reflexivity. Qed.
+
+Lemma total_all_tracked k bs : total k bs = subnet_count k (flat_map tracked bs).
+Proof.
+  induction bs as [|b bs IH]; [reflexivity|]. cbn [total flat_map].
+  rewrite subnet_count_app, IH, trecs_tracked, cntr_subnet_count. reflexivity.
+Qed.
+
+Definition bucket_bounds (t : table) : Prop :=
+  length (buckets t) = 17%nat /\
+  forall b, In b (buckets t) -> (length (entries b) <= 16)%nat /\ (length (repl b) <= 10)%nat.
+Definition bucket_distance_right (t : table) : Prop :=
+  forall i b n, nth_error (buckets t) i = Some b -> In n (tracked b) ->
+    bucket_index (logdist (self t) (n_id n)) = i.
+Definition no_self (t : table) : Prop := forall n, In n (all_tracked t) -> n_id n <> self t.
+Definition distinct_ids (t : table) : Prop :=
+  forall b, In b (buckets t) -> NoDup (map n_id (tracked b)).
+Definition subnet_limits_hold (t : table) : Prop :=
+  (forall b k, In b (buckets t) -> subnet_count k (tracked b) <= bucket_ip_limit) /\
+  (forall k, subnet_count k (all_tracked t) <= table_ip_limit).
+Definition counters_exact (t : table) : Prop :=
+  (forall b k, In b (buckets t) -> ns_get k (bips b) = subnet_count k (tracked b)) /\
+  (forall k, ns_get k (tips t) = subnet_count k (all_tracked t)).
+Definition nonfull_no_replacements (t : table) : Prop :=
+  forall b, In b (buckets t) -> (length (entries b) < 16)%nat -> repl b = [].
+Definition usable_addresses (t : table) : Prop :=
+  forall n, In n (all_tracked t) -> ip_valid (n_ip n) = true /\ is_unspecified (n_ip n) = false.
+Definition reval_lists_consistent (t : table) : Prop :=
+  forall b, In b (buckets t) ->
+    (forall n, In n (entries b) -> n_rl n <> 0) /\ (forall n, In n (repl b) -> n_rl n = 0).
+
+Lemma inv_bucket_bounds t : TableInv t -> bucket_bounds t.
+Proof.
+  intros HT. split; [apply (ti_len _ HT)|]. intros b Hb. apply In_nth_error in Hb. destruct Hb as [i Hi].
+  destruct (ti_bs _ HT _ _ Hi) as (HS & _). split; [apply (bs_len_e _ _ _ HS)|apply (bs_len_r _ _ _ HS)].
+Qed.
+
+Lemma inv_rec_ok t i b n :
+  TableInv t -> nth_error (buckets t) i = Some b -> In n (tracked b) -> rec_ok (self t) i (n_rec n).
+Proof.
+  intros HT Hi Hn. destruct (ti_bs _ HT _ _ Hi) as (HS & _).
+  apply (proj1 (bs_bag _ _ _ HS)). rewrite trecs_tracked. apply in_map. exact Hn.
+Qed.
+
+Lemma inv_distance_right t : TableInv t -> bucket_distance_right t.
+Proof. intros HT i b n Hi Hn. apply (inv_rec_ok t i b n HT Hi Hn). Qed.
+
+Lemma in_all_tracked t n :
+  In n (all_tracked t) -> exists i b, nth_error (buckets t) i = Some b /\ In n (tracked b).
+Proof.
+  intros H. apply in_flat_map in H. destruct H as (b & Hb & Hn). apply In_nth_error in Hb.
+  destruct Hb as [i Hi]. eauto.
+Qed.
+
+Lemma inv_no_self t : TableInv t -> no_self t.
+Proof.
+  intros HT n Hn. destruct (in_all_tracked _ _ Hn) as (i & b & Hi & Hb).
+  apply (inv_rec_ok t i b n HT Hi Hb).
+Qed.
+
+Lemma inv_usable t : TableInv t -> usable_addresses t.
+Proof.
+  intros HT n Hn. destruct (in_all_tracked _ _ Hn) as (i & b & Hi & Hb).
+  destruct (inv_rec_ok t i b n HT Hi Hb) as (_ & _ & Ha). unfold addable, n_ip in *.
+  destruct (ip_valid _), (is_unspecified _); cbn in Ha; try discriminate; auto.
+Qed.
+
+Lemma inv_distinct_ids t : TableInv t -> distinct_ids t.
+Proof.
+  intros HT b Hb. apply In_nth_error in Hb. destruct Hb as [i Hi].
+  destruct (ti_bs _ HT _ _ Hi) as (HS & _). destruct (bs_bag _ _ _ HS) as [_ H].
+  rewrite trecs_tracked, map_map in H. exact H.
+Qed.
+
+Lemma inv_counters_exact t : TableInv t -> counters_exact t.
+Proof.
+  intros HT. split.
+  - intros b k Hb. apply In_nth_error in Hb. destruct Hb as [i Hi].
+    destruct (ti_bs _ HT _ _ Hi) as (_ & _ & He). rewrite He, trecs_tracked. apply cntr_subnet_count.
+  - intros k. rewrite (ti_exact _ HT). apply total_all_tracked.
+Qed.
+
+Lemma inv_subnet_limits t : TableInv t -> subnet_limits_hold t.
+Proof.
+  intros HT. destruct (inv_counters_exact t HT) as [H1 H2]. split.
+  - intros b k Hb. rewrite <- (H1 b k Hb). apply In_nth_error in Hb. destruct Hb as [i Hi].
+    destruct (ti_bs _ HT _ _ Hi) as (_ & Hok & _). apply ns_ok_get. exact Hok.
+  - intros k. rewrite <- H2. apply ns_ok_get. apply (ti_ok _ HT).
+Qed.
+
+Lemma inv_nonfull t : TableInv t -> nonfull_no_replacements t.
+Proof.
+  intros HT b Hb. apply In_nth_error in Hb. destruct Hb as [i Hi].
+  destruct (ti_bs _ HT _ _ Hi) as (HS & _). apply (bs_nonfull _ _ _ HS).
+Qed.
+
+Lemma inv_reval t : TableInv t -> reval_lists_consistent t.
+Proof.
+  intros HT b Hb. apply In_nth_error in Hb. destruct Hb as [i Hi].
+  destruct (ti_bs _ HT _ _ Hi) as (HS & _). split; [apply (bs_rl_e _ _ _ HS)|apply (bs_rl_r _ _ _ HS)].
+Qed.
+
+(* every table reachable from newTable by a history of guarded operations *)
+Definition reachable (t : table) : Prop :=
+  exists s ops, s < 2 ^ 256 /\ Forall wf_op ops /\ run (new_table s) ops = Some t.
+
+Lemma reachable_inv t : reachable t -> TableInv t.
+Proof.
+  intros (s & ops & Hs & Hw & Hr).
+  destruct (run_inv ops (new_table s) (new_table_inv s Hs) Hw) as (t' & Hr' & HT & _).
+  congruence.
+Qed.
+
+Lemma history_never_panics s ops :
+  s < 2 ^ 256 -> Forall wf_op ops -> exists t, run (new_table s) ops = Some t.
+Proof.
+  intros Hs Hw. destruct (run_inv ops (new_table s) (new_table_inv s Hs) Hw) as (t' & Hr' & _). eauto.
+Qed.
+
+Lemma reachable_step t o : reachable t -> wf_op o -> exists t', step t o = Some t' /\ reachable t'.
+Proof.
+  intros Hr Hw. destruct (step_inv t o (reachable_inv t Hr) Hw) as (t' & Hst & _).
+  exists t'. split; [exact Hst|]. destruct Hr as (s & ops & Hs & Hws & Hrun).
+  exists s, (ops ++ [o]). split; [exact Hs|]. split; [apply Forall_app; auto|].
+  clear -Hrun Hst. revert Hrun. generalize (new_table s). induction ops as [|x ops IH]; intros t0; cbn [run app].
+  - intros E. injection E as ->. rewrite Hst. reflexivity.
+  - destruct (step t0 x); [apply IH|discriminate].
 Qed.
